@@ -18,7 +18,8 @@
 // releases it to the pool at once and answers like none;
 // pb (2.05 + payload = handler invocation number), pbe (4.04, no payload), none, sep (no
 // response through the writer; a NON response is sent by `flush`), empty (code 0.00), rst (the handler sets type Reset), rstc (Reset
-// with code 4.04), ox / oc / oxc (like pb plus unknown elective / critical / both kinds of option numbers).  `.<code>`: the
+// with code 4.04), ox / oc / oxc (like pb plus unknown elective / critical / both kinds of option numbers), ov-<id>-<len> (like pb
+// plus option number <id> with a value of <len> bytes).  `.<code>`: the
 // request's code (default 1 = GET; 5 FETCH, 6 PATCH, 7 iPATCH, 8 and 31 unassigned).  Datagrams are decoded by the harness's own
 // parser (rawParse), not by the library's.
 // blk: the handler first writes a confirmable message of its own (blocks until it is acknowledged,
@@ -150,6 +151,14 @@ func (sc *scenario) handler(w *responsewriter.ResponseWriter[*udpclient.Conn], r
 	sc.mu.Unlock()
 	p, _ := r.Path()
 	tok := append([]byte(nil), r.Token()...)
+	if id, ln, ok := parseOv(strings.TrimPrefix(p, "/")); ok {
+		// ov-<id>-<len>: like pb, and the reply carries one more option: number <id> with a value of <len> bytes (a legal
+		// length for that option by its RFC; the lengths are the generator's business).  Whatever the first copy got, a
+		// duplicate must get too - the cached reply travels through the library's encoder AND decoder.
+		_ = w.SetResponse(codes.Content, message.TextPlain, bytes.NewReader([]byte(strconv.Itoa(n))))
+		w.Message().AddOptionBytes(message.OptionID(id), seqBytes(ln, 0x21))
+		return
+	}
 	switch strings.TrimPrefix(p, "/") {
 	case "pb":
 		_ = w.SetResponse(codes.Content, message.TextPlain, bytes.NewReader([]byte(strconv.Itoa(n))))
@@ -198,6 +207,17 @@ func (sc *scenario) handler(w *responsewriter.ResponseWriter[*udpclient.Conn], r
 		cc.ReleaseMessage(m)
 		_ = w.SetResponse(codes.Content, message.TextPlain, bytes.NewReader([]byte(strconv.Itoa(n))))
 	}
+}
+
+// parseOv: the behaviour word ov-<id>-<len>.
+func parseOv(w string) (id, ln int, ok bool) {
+	f := strings.Split(w, "-")
+	if len(f) != 3 || f[0] != "ov" {
+		return 0, 0, false
+	}
+	id, e1 := strconv.Atoi(f[1])
+	ln, e2 := strconv.Atoi(f[2])
+	return id, ln, e1 == nil && e2 == nil && id >= 0 && id < 65536 && ln >= 0 && ln <= 1100
 }
 
 type rawOpt struct {
